@@ -147,6 +147,43 @@ theorem alimit_spec (c : Interval ℝ) (v : ℝ) (hw : c.wide = true) (hrej : c.
             refine ⟨?_, EReal.coe_lt_coe_iff.2 (by linarith)⟩
             split_ifs <;> [exact this.le; exact this]
 
+
+/-- on a wide interval an included finite bound is itself accepted -/
+theorem isCorrect_lo_of_wide (c : Interval ℝ) (l : ℝ) (hw : c.wide = true) (hlo : c.lo = .fin l)
+    (hil : c.inclLo = true) : c.isCorrect l = true := by
+  obtain ⟨hp0, hwd⟩ := (wide_iff c).1 hw
+  have hT := TINY_pos
+  rw [hlo] at hwd; simp only [Bound.toEReal_fin] at hwd
+  rw [isCorrect_iff_bounds']
+  simp only [hil, if_true, hlo, Bound.toEReal_fin, le_refl, true_and]
+  have : ((l + 0 : ℝ) : EReal) < c.hi.toEReal := ereal_coe_add_lt hwd (by linarith)
+  rw [add_zero] at this
+  split_ifs <;> [exact this.le; exact this]
+
+theorem isCorrect_hi_of_wide (c : Interval ℝ) (h : ℝ) (hw : c.wide = true) (hhi : c.hi = .fin h)
+    (hiu : c.inclHi = true) : c.isCorrect h = true := by
+  obtain ⟨hp0, hwd⟩ := (wide_iff c).1 hw
+  have hT := TINY_pos
+  rw [hhi] at hwd; simp only [Bound.toEReal_fin] at hwd
+  rw [isCorrect_iff_bounds']
+  simp only [hiu, if_true, hhi, Bound.toEReal_fin, le_refl, and_true]
+  have := lt_of_lt_of_le (ereal_lt_sub hwd) (EReal.coe_le_coe_iff.2 (by linarith : h - (c.prec + Constants.TINY) ≤ h))
+  split_ifs <;> [exact this.le; exact this]
+
+/-- with both bounds included, `getAcceptedLimit` is `getLimit`: for a rejected request on a wide
+interval it is the (accepted) bound on the request's side -/
+theorem alimit_closed (c : Interval ℝ) (v : ℝ) (hw : c.wide = true) (hcl : c.inclLo = true ∧ c.inclHi = true)
+    (hrej : c.isCorrect v = false) :
+    ∃ b, c.getAcceptedLimit (.fin v) = .fin b ∧ c.getLimit (.fin v) = .fin b ∧ c.isCorrect b = true := by
+  have hrejB : c.isCorrectB (.fin v) = false := hrej
+  rcases alimit_spec c v hw hrej with ⟨hg, l, _, hlo, -⟩ | ⟨hg, h, _, hhi, -⟩
+  · refine ⟨l, ?_, ?_, isCorrect_lo_of_wide c l hw hlo hcl.1⟩
+    · simp [getAcceptedLimit, hrejB, hg, strictLowerBound, hcl.1, hlo]
+    · simp [getLimit, hrejB, hg, hlo]
+  · refine ⟨h, ?_, ?_, isCorrect_hi_of_wide c h hw hhi hcl.2⟩
+    · simp [getAcceptedLimit, hrejB, hg, strictUpperBound, hcl.2, hhi]
+    · simp [getLimit, hrejB, hg, hhi]
+
 end Interval
 
 namespace Param
